@@ -56,8 +56,10 @@ Lines(inp) ==
             IF t <= m THEN StripCR(SubSeq(inp, from(t), ends[t] - 1))
             ELSE SubSeq(inp, from(t), n)]
 
+\* (*_flaky: the same lender over a source whose seek can be made to fail)
 LineKinds == {"line_cursor", "line_buf", "line_file", "line_path", "zstd_cursor", "zstd_file",
-              "zstd_path", "gzip_cursor", "gzip_file", "gzip_path"}
+              "zstd_path", "gzip_cursor", "gzip_file", "gzip_path",
+              "line_flaky", "zstd_flaky", "gzip_flaky"}
 Kinds == LineKinds \cup {"fromiter", "range"}
 
 \* the items of one full pass of the lender described by an episode header
@@ -77,8 +79,9 @@ PassIsPrefix == pass = SubSeq(items, 1, pos)
 
 (***************************************************************************)
 (* Eff(op): outcome, expected fields of the event, next state.  Errors     *)
-(* (r = "err", end = "err") are never admissible: the sources are in       *)
-(* memory or regular files and hold valid data.                            *)
+(* (r = "err", end = "err") are admissible only for a rewind whose source  *)
+(* was made to fail its seek: the other sources are in memory or regular   *)
+(* files and hold valid data.                                              *)
 (***************************************************************************)
 St(p, ps, o) == [pos |-> p, pass |-> ps, open |-> o]
 Same == St(pos, pass, open)
@@ -103,7 +106,12 @@ Eff(op) ==
          [out |-> "ret", exp |-> [res |-> SubSeq(items, pos + 1, L), end |-> "none"],
           st |-> St(L, pass \o SubSeq(items, pos + 1, L), TRUE)]
     [] o = "rewind" ->
-         [out |-> "ret", exp |-> [r |-> "ok"], st |-> St(0, <<>>, TRUE)]
+         \* a source that cannot be rewound (its seek fails: the op says so)
+         \* makes rewind return the error -- never a lender that replays
+         \* something else; the lender is consumed by the call
+         IF "fail" \in DOMAIN op /\ op.fail
+         THEN [out |-> "ret", exp |-> [r |-> "err"], st |-> St(pos, pass, FALSE)]
+         ELSE [out |-> "ret", exp |-> [r |-> "ok"], st |-> St(0, <<>>, TRUE)]
 
 LInit == items = <<>> /\ pos = 0 /\ pass = <<>> /\ open = FALSE
 Install(s) == pos' = s.pos /\ pass' = s.pass /\ open' = s.open
